@@ -34,7 +34,8 @@ RULE = ("exhaustive over abort points: for every scenario of a fixed family (opt
         "of two to four steps, also re-running a step object; nested plans of depth 2 (outer <= 2 x inner <= 2 evaluations) and "
         "depth 3, with failures, budget stops and empty trackers (NESTED_OPTIMIZER_FAILED) inside the inner, middle and outer run; "
         "nested plans that had another parent before (constructed with parent=, or first nested under another outer plan); "
-        "nested plans on their own OptimizerContext (observers on the outer context only / on both); "
+        "nested plans on their own OptimizerContext (observers on the outer context only / on both); failing evaluations in steps "
+        "run with variable / objective / non-linear-constraint transforms and finite bounds / linear constraints; "
         "BasicOptimizer with its abort and results callbacks, also one object run twice) and handler/observer layouts (0-3 handlers per plan level, 0-2 "
         "observers registered for all or for some event types), EVERY index k of the unaborted delivery log (each delivery to a "
         "handler or observer and each evaluator call) is used as the abort point, plus k = none; thorough adds seeded random "
@@ -170,7 +171,8 @@ def _scenario(case, k):
     if case.get("basic"):
         try:
             c = case["steps"][0]["case"]
-            opt = BasicOptimizer(c14.make_config(c), evaluator, verifbasic={"tag": 0, "world": w})
+            opt = BasicOptimizer(c14.make_config(c), evaluator, transforms=c14.make_transforms(c["transform"]),
+                                 verifbasic={"tag": 0, "world": w})
             octx = opt._optimizer_context
             octx.plugin_manager.add_plugin("optimizer", "verifscript", env14["ScriptedPlugin"]())
             octx.plugin_manager.add_plugin("plan_handler", "verifbasic", env["RecPlugin"]())
@@ -275,13 +277,13 @@ def _scenario(case, k):
                     tree = c14.root(c)
                     Scripted.queue[:] = [c14.spec_of(tree, c["allow_nan"])]
                     kw = {"nested_optimization": plans[1]} if c14.depth(tree) > 0 else {}
-                    code = outer.run_step(st, config=cfg, **kw)
+                    code = outer.run_step(st, config=cfg, transforms=c14.make_transforms(c["transform"]), **kw)
                 else:
                     req = c["script"][0]
                     evaluator.pending, evaluator.pcase = req.get("fault"), c
                     variables = ([[0.25 * (req["pt"] + j), 0.0] for j in range(req["batch"])] if req["batch"] > 0
                                  else [0.25 * req["pt"], 0.0])
-                    code = outer.run_step(st, config=cfg, variables=variables)
+                    code = outer.run_step(st, config=cfg, transforms=c14.make_transforms(c["transform"]), variables=variables)
                 exits.append([sid, int(code.value)])
             except PlanAborted:
                 exits.append([sid, -2])
@@ -621,6 +623,17 @@ def scenario_family(tier):
     if tier == "thorough":
         ipick = {x[0]: ("both" if i % 2 else "outer-only") for i, x in enumerate(out) if x[0].startswith("nested") and "+" not in x[0]}
     out += [(f"{n}+innerctx-{ipick[n]}", s, b) for n, s, b in out if n in ipick]
+    # steps (without nested optimization) run with transforms -- variable / objective / non-linear constraint scalers -- and
+    # with finite bounds and/or linear constraints, so that results without functions still carry a ConstraintInfo that
+    # has to be transformed back before FINISHED_EVALUATION is emitted (events and exit codes must not depend on it)
+    tpick = {"opt-toofew-mid": ("all", True, False), "eval-toofew": ("constraints", False, True),
+             "eval-batch-toofew": ("all", True, True), "three-steps": ("constraints", True, False),
+             "basic-toofew": ("all", True, True), "rerun-steps": ("variables", True, True)}
+    for n, steps, b in list(out):
+        if n in tpick:
+            tr, bounds, linear = tpick[n]
+            out.append((f"{n}+tr-{tr}", [{**st, "case": {**st["case"], "transform": tr, "bounds": bounds, "linear": linear}}
+                                        for st in steps], b))
     return out
 
 
@@ -704,6 +717,8 @@ def gen_cases(tier, rng):
             layouts = [LAYOUTS[nl % len(LAYOUTS)], LAYOUTS[(nl + 3) % len(LAYOUTS)]]
             if not name.startswith(("nested3", "random")) and "+" not in name:
                 layouts.append(LAYOUTS[(nl + 4) % len(LAYOUTS)])
+            if tier == "quick" and "+" in name and name.startswith("nested3"):
+                layouts = layouts[:1]          # (the long three-level variants: one layout in the quick tier)
         nl += 1
         d = _depth(steps)
         for plans, observers in layouts:
